@@ -4,6 +4,7 @@ pub mod c14;
 pub mod c16;
 pub mod chain;
 pub mod c19;
+pub mod c20;
 
 #[derive(Clone, Debug)]
 pub struct RunCfg {
